@@ -37,7 +37,7 @@ fn tex_header(attr: u32, format: u32, w: u16, h: u16, d: u16) -> [u8; 80] {
     b
 }
 
-//@unit props=C13 label=S tier=thorough fn=tex::Texture::from_existing bound="B8G8R8A8, 2x1x1, 80-byte header with symbolic attribute flags, 8 symbolic payload bytes" stubs=fmt::format
+//@unit props=C13 label=S tier=parked fn=tex::Texture::from_existing bound="B8G8R8A8, 2x1x1, 80-byte header with symbolic attribute flags, 8 symbolic payload bytes" stubs=fmt::format
 //@desc width/height/depth copied from the header; rgba = (src[4i+2], src[4i+1], src[4i], src[4i+3]); three-dimensional exactly when attribute bit 0x1000000 is set
 #[kani::proof]
 #[kani::unwind(17)]
@@ -64,7 +64,7 @@ fn k_tex_bgra_2x1() {
     kani::cover!(true, "reachable");
 }
 
-//@unit props=C13 label=S tier=thorough fn=tex::Texture::from_existing bound="BC1, 4x4x1, 80-byte header, 8 symbolic payload bytes" stubs=fmt::format
+//@unit props=C13 label=S tier=parked fn=tex::Texture::from_existing bound="BC1, 4x4x1, 80-byte header, 8 symbolic payload bytes" stubs=fmt::format
 //@desc a BC1 texture decodes through decode_bc1 and the RGBA reorder: pixel (x,y) is the reordered word of the BC1 block decoder
 #[kani::proof]
 #[kani::unwind(17)]
@@ -91,7 +91,7 @@ fn k_tex_bc1_4x4() {
     kani::cover!(true, "reachable");
 }
 
-//@unit props=C18 label=S tier=thorough fn=tex::Texture::from_existing bound="B8G8R8A8 header announcing 2x1x1 with only 4 payload bytes (truncated), all payload contents" stubs=fmt::format
+//@unit props=C18 label=S tier=parked fn=tex::Texture::from_existing bound="B8G8R8A8 header announcing 2x1x1 with only 4 payload bytes (truncated), all payload contents" stubs=fmt::format
 //@desc a truncated texture returns None or a value; it never panics
 #[kani::proof]
 #[kani::unwind(17)]
@@ -105,7 +105,7 @@ fn k_tex_truncated_bgra_nopanic() {
     kani::cover!(true, "reachable");
 }
 
-//@unit props=C18 label=S tier=thorough fn=tex::Texture::from_existing bound="BC1 header announcing 4x4x1 with only 4 payload bytes (truncated)" stubs=fmt::format
+//@unit props=C18 label=S tier=parked fn=tex::Texture::from_existing bound="BC1 header announcing 4x4x1 with only 4 payload bytes (truncated)" stubs=fmt::format
 //@desc a truncated block-compressed texture returns None or a value; it never panics
 #[kani::proof]
 #[kani::unwind(17)]
